@@ -58,6 +58,8 @@ func init() {
 				New: "\t\t\tif idx := strings.IndexRune(id, '/'); idx > -1 {\n\t\t\t\tfmt.Fprintf(key, \"files %s\\n\", id[:idx])\n\t\t\t}\n\t\t\tsuccess = true"},
 			{Name: "imports-in-map-order", File: "go/loader/hash.go", Rule: "R4.2", KeyPart: "map-order",
 				Old: "\tfor _, dep := range imps {\n", New: "\tfor _, dep := range pkg.Imports {\n"},
+			{Name: "content-id-instead-of-action-id", File: "go/loader/hash.go", Rule: "R4.2", KeyPart: "build-id-part-contains-action-id",
+				Old: "\t\t\tif idx := strings.IndexRune(id, '/'); idx > -1 {\n\t\t\t\tfmt.Fprintf(key, \"files %s\\n\", id[:idx])\n", New: "\t\t\tif idx := strings.LastIndexByte(id, '/'); idx > -1 {\n\t\t\t\tfmt.Fprintf(key, \"files %s\\n\", id[idx+1:])\n"},
 			{Name: "goos-not-hashed", File: "go/loader/hash.go", Rule: "R4.2", KeyPart: "GOARCH",
 				Old: "\tfmt.Fprintf(key, \"goos %s goarch %s\\n\", runtime.GOOS, runtime.GOARCH)\n", New: "\tfmt.Fprintf(key, \"goos %s\\n\", runtime.GOOS)\n"},
 			{Name: "analyzer-names-unsorted", File: "lintcmd/runner/runner.go", Rule: "R4.3", KeyPart: "sorted",
@@ -511,6 +513,54 @@ func runC04(c *Ctx) {
 		}
 		c.Check("packages.Module.GoMod::in-package-hash", ch.Pos(), hashedCH["packages.Module.GoMod"], "the go.mod file (language version) is hashed on the fallback branch")
 		c.Check("loader.PackageSpec.PkgPath::in-package-hash", ch.Pos(), hashedCH["loader.PackageSpec.PkgPath"], "the import path is hashed")
+		// the part of a Go build id (actionID/contentID) that is hashed must contain the action id, its first
+		// component: the content id is a hash of the compiled archive and does not change with edits the
+		// compiler ignores (doc comments such as "Deprecated:", //lint: directives), which do change results
+		nBuildID := 0
+		for _, w := range chWrites {
+			args := w.Common().Args
+			for _, a := range args {
+				sl := BackSlice(a, SliceOpts{ThroughCalls: true})
+				fromID := false
+				for x := range sl {
+					if call, ok := x.(*ssa.Call); ok && strings.HasSuffix(CalleeName(&call.Call), "loader.getBuildid") {
+						fromID = true
+					}
+				}
+				if !fromID {
+					continue
+				}
+				suffixOnly := ""
+				for x := range sl {
+					switch x := x.(type) {
+					case *ssa.Slice:
+						if _, isStr := x.X.Type().Underlying().(*types.Basic); isStr && x.Low != nil {
+							if k, ok := ConstInt(x.Low); !ok || k != 0 {
+								suffixOnly = "a slice of the id that does not start at its beginning"
+							}
+						}
+					case *ssa.Extract:
+						if call, ok := x.Tuple.(*ssa.Call); ok && CalleeName(&call.Call) == "strings.Cut" && x.Index == 1 {
+							suffixOnly = "the part after the separator (strings.Cut's second result)"
+						}
+					case *ssa.Call:
+						switch CalleeName(&x.Call) {
+						case "strings.TrimPrefix", "strings.CutPrefix", "path.Base", "path/filepath.Base":
+							suffixOnly = "the result of " + CalleeName(&x.Call)
+						}
+					case *ssa.IndexAddr:
+						if k, ok := ConstInt(x.Index); ok && k != 0 && Derives(x.X, IsCallResult("strings.Split", "strings.SplitN")) {
+							suffixOnly = "a later component of the split id"
+						}
+					}
+				}
+				nBuildID++
+				c.Check(FuncKey(w.Parent())+"::build-id-part-contains-action-id#"+itoa(nBuildID-1), w.Pos(), suffixOnly == "", "what is hashed of a build id must include its first component (the action id, which covers every input of the compilation including comments): found %s", suffixOnly)
+			}
+		}
+		if nBuildID < 2 {
+			c.Undecided("computeHash hashes fewer than 2 build ids (%d): package and imports expected", nBuildID)
+		}
 		// GOOS / GOARCH (constants in SSA: use the AST)
 		fd, p := c.FuncDecl(ch.Object().(*types.Func))
 		seenSel := map[string]bool{}
